@@ -583,6 +583,28 @@ def _spacing_labels(cfg, out):
     out.label("keypoints-offset>=1e4")
 
 
+def _convexity_conditioning(cfg, rows, s_in):
+  """Extra movement a float32-rounded feasible kernel may show under convexity.
+
+  Convexity compares slopes h[i] / l[i].  The feasible kernel is exact in
+  float64 and then rounded to float32, so a height carries an error of up to
+  ulp32(S); seen as a slope error ulp32(S) / l[i] it has to be absorbed by
+  every later height h[j] = slope * l[j].  The movement is therefore bounded by
+  8 * ulp32(S) * max_{i<j} l[j] / l[i], which is negligible for ordinary
+  spacings and dominates only for gap ratios beyond ~1e3 (thorough tier:
+  keypoints one float32 ulp apart next to gaps of 1e3).
+  """
+  if cfg["conv"] == 0 or rows < 3:
+    return 0.0
+  lens = np.asarray(lengths_of(cfg)[:rows - 1], np.float64)
+  amp = 1.0
+  smallest = lens[0]
+  for l in lens[1:]:
+    amp = max(amp, l / smallest)
+    smallest = min(smallest, l)
+  return 8.0 * float(np.spacing(np.float32(s_in))) * amp
+
+
 def run_case(case):
   out = Outcome()
   cfg = case["cfg"]
@@ -710,9 +732,10 @@ def run_case(case):
     moved = float(np.max(np.abs(res - k64)))
     out.checks += 1
     out.info["moved_over_S"] = moved / s_in
-    if moved > TOL_W * s_in:
+    tol_moved = TOL_W * s_in + _convexity_conditioning(cfg, rows, s_in)
+    if moved > tol_moved:
       out.violate("feasible kernel moved by %.3g (tolerance %.3g) via %s" %
-                  (moved, TOL_W * s_in, case["entry"]), kind="unchanged", **sig)
+                  (moved, tol_moved, case["entry"]), kind="unchanged", **sig)
     out.nontrivial = bool(rows > 1 and np.any(k64[1:] != 0))
   else:
     configured = cfg["mono"] != 0 or cfg["conv"] != 0 or has_bounds
